@@ -249,7 +249,7 @@ def split_trace(path):
     for line in open(path):
         if not line.strip():
             continue
-        if '"ev":"Reset"' in line[:40] or not behs:
+        if '"ev":"Reset"' in line or not behs:
             behs.append([])
         behs[-1].append(line)
     return behs
